@@ -15,6 +15,7 @@ import (
 	"reflect"
 	"sort"
 	"strings"
+	"unsafe"
 )
 
 // Replay holds the values of the named inputs for a native run.
@@ -246,3 +247,141 @@ func Override(name string, fn any) {}
 // Flag is a structural boolean: the engine enumerates both values on separate paths
 // (use Bool for data that should stay symbolic inside one path).
 func Flag(name string) bool { return Choice(name, 2) == 1 }
+
+// AtomConcretize lets the engine enumerate the values of symbolic numbers that were rendered
+// into a string next to other digits (ambiguous boundary) instead of giving up; use only with
+// small value ranges.
+func AtomConcretize(on bool) {}
+
+// Havoc fills *p (p must be a non-nil pointer) with arbitrary content following its type:
+// symbolic scalars named <name>.<field>..., one-element slices and maps, non-nil pointers
+// (depth 3), strings "h", nil interfaces and funcs.
+func Havoc(name string, p any) {
+	v := reflect.ValueOf(p)
+	if v.Kind() != reflect.Ptr || v.IsNil() {
+		panic("zzverif.Havoc needs a non-nil pointer")
+	}
+	havocValue(v.Elem(), name, 0)
+}
+
+func settable(v reflect.Value) reflect.Value {
+	if v.CanSet() {
+		return v
+	}
+	return reflect.NewAt(v.Type(), unsafe.Pointer(v.UnsafeAddr())).Elem()
+}
+
+func havocValue(v reflect.Value, name string, depth int) {
+	v = settable(v)
+	switch v.Kind() {
+	case reflect.Bool:
+		v.SetBool(get(name)&1 == 1)
+	case reflect.Int, reflect.Int8, reflect.Int16, reflect.Int32, reflect.Int64:
+		v.SetInt(int64(get(name)))
+	case reflect.Uint, reflect.Uint8, reflect.Uint16, reflect.Uint32, reflect.Uint64, reflect.Uintptr:
+		v.SetUint(get(name))
+	case reflect.Float32:
+		v.SetFloat(float64(math.Float32frombits(uint32(get(name)))))
+	case reflect.Float64:
+		v.SetFloat(math.Float64frombits(get(name)))
+	case reflect.String:
+		v.SetString("h")
+	case reflect.Ptr:
+		if depth >= 3 {
+			v.Set(reflect.Zero(v.Type()))
+			return
+		}
+		n := reflect.New(v.Type().Elem())
+		havocValue(n.Elem(), name+".*", depth+1)
+		v.Set(n)
+	case reflect.Struct:
+		for i := 0; i < v.NumField(); i++ {
+			havocValue(v.Field(i), name+"."+v.Type().Field(i).Name, depth+1)
+		}
+	case reflect.Array:
+		for i := 0; i < v.Len(); i++ {
+			havocValue(v.Index(i), fmt.Sprintf("%s[%d]", name, i), depth+1)
+		}
+	case reflect.Slice:
+		if depth >= 4 {
+			v.Set(reflect.Zero(v.Type()))
+			return
+		}
+		s := reflect.MakeSlice(v.Type(), 1, 1)
+		havocValue(s.Index(0), name+"[0]", depth+1)
+		v.Set(s)
+	case reflect.Map:
+		m := reflect.MakeMap(v.Type())
+		if depth < 4 {
+			k := reflect.New(v.Type().Key()).Elem()
+			e := reflect.New(v.Type().Elem()).Elem()
+			havocValue(k, name+".key", depth+1)
+			havocValue(e, name+".val", depth+1)
+			m.SetMapIndex(k, e)
+		}
+		v.Set(m)
+	default:
+		v.Set(reflect.Zero(v.Type()))
+	}
+}
+
+// SameState is deep equality of logical state: nil and empty slices/maps are equal, slices by
+// length and elements, maps by content, pointers by pointee.
+func SameState(a, b any) bool { return stateDump(a) == stateDump(b) }
+
+func stateDump(x any) string {
+	var walk func(v reflect.Value, depth int) string
+	walk = func(v reflect.Value, depth int) string {
+		if depth > 8 {
+			return "<deep>"
+		}
+		switch v.Kind() {
+		case reflect.Ptr:
+			if v.IsNil() {
+				return "nil"
+			}
+			return "&" + walk(v.Elem(), depth+1)
+		case reflect.Interface:
+			if v.IsNil() {
+				return "nil"
+			}
+			return v.Elem().Type().String() + ":" + walk(v.Elem(), depth+1)
+		case reflect.Struct:
+			var parts []string
+			for i := 0; i < v.NumField(); i++ {
+				parts = append(parts, walk(v.Field(i), depth+1))
+			}
+			return "{" + strings.Join(parts, ",") + "}"
+		case reflect.Slice, reflect.Array:
+			var parts []string
+			for i := 0; i < v.Len(); i++ {
+				parts = append(parts, walk(v.Index(i), depth+1))
+			}
+			return "[" + strings.Join(parts, ",") + "]"
+		case reflect.Map:
+			var parts []string
+			for _, k := range v.MapKeys() {
+				parts = append(parts, walk(k, depth+1)+"=>"+walk(v.MapIndex(k), depth+1))
+			}
+			sort.Strings(parts)
+			return "map[" + strings.Join(parts, ";") + "]"
+		case reflect.Bool:
+			return fmt.Sprint(v.Bool())
+		case reflect.Int, reflect.Int8, reflect.Int16, reflect.Int32, reflect.Int64:
+			return fmt.Sprint(v.Int())
+		case reflect.Uint, reflect.Uint8, reflect.Uint16, reflect.Uint32, reflect.Uint64, reflect.Uintptr:
+			return fmt.Sprint(v.Uint())
+		case reflect.Float32, reflect.Float64:
+			return fmt.Sprint(math.Float64bits(v.Float()))
+		case reflect.String:
+			return fmt.Sprintf("%q", v.String())
+		case reflect.Func:
+			if v.IsNil() {
+				return "nil"
+			}
+			return "<func>"
+		}
+		return "<" + v.Kind().String() + ">"
+	}
+	return walk(reflect.ValueOf(x), 0)
+}
